@@ -105,11 +105,16 @@ class Rig:
             self.s = VirtualTimeScheduler(c0)
         true_for = set(case.get("handler_true", []))
         dflt = bool(case.get("handler_default", False))
+        seq = case.get("handler_seq", [])   # verdicts by position of the handler call (None = by name): a stateful handler
         self.hlog = []
+        self.shared_exc = {}                # exception names starting with "S" are ONE instance per name, raised repeatedly
 
         def handler(ex):
             n = err_name(ex)
+            k = len(self.hlog)
             self.hlog.append(n)
+            if k < len(seq) and seq[k] is not None:
+                return bool(seq[k])
             return (not dflt) if n in true_for else dflt
 
         self.catch = CatchScheduler(self.s, handler)
@@ -136,6 +141,13 @@ class Rig:
             return int(c)
         return int(c)
 
+    def make_exc(self, name):
+        if name.startswith("S"):
+            if name not in self.shared_exc:
+                self.shared_exc[name] = InjectedError(name)
+            return self.shared_exc[name]
+        return InjectedError(name)
+
     # -- actions
     def make_action(self, node):
         nid = node["id"]
@@ -148,7 +160,7 @@ class Rig:
                 for st in node["steps"]:
                     self.step(scheduler, st)
                 if node.get("raise") is not None:
-                    raise InjectedError(node["raise"])
+                    raise self.make_exc(node["raise"])
             except Exception as e:  # noqa  recorded for the oracles, then passed on unchanged
                 self.events.append(["raise", nid, err_name(e)])
                 raise
@@ -318,7 +330,7 @@ def canon_model(case, resp):
 
 
 def model_request(case):
-    return {k: case[k] for k in ("op", "clock", "bump", "ops", "handler_true", "handler_default") if k in case}
+    return {k: case[k] for k in ("op", "clock", "bump", "ops", "handler_true", "handler_default", "handler_seq") if k in case}
 
 
 # --------------------------------------------------------------------------- generators
@@ -436,7 +448,7 @@ def _run_periodic(case):
                 rig.handles[pid].dispose()
             if state in fn["raise_at"]:
                 events.append(["raise", pid, f"p{pid}s{state}"])
-                raise InjectedError(f"p{pid}s{state}")
+                raise rig.make_exc(f"p{pid}s{state}")
             return state + 1
 
         return action
@@ -446,7 +458,8 @@ def _run_periodic(case):
         out = "ok"
         try:
             if k == "periodic":
-                _, pid, period, st, catch = op
+                _, pid, period, st, catch = op[:5]
+                via = op[5] if len(op) > 5 else case.get("via", "schedule_periodic")
                 events.append(["periodic", pid, rig.clock(), period, st])
                 target = rig.catch if catch else rig.s
                 if via == "schedule_periodic":
@@ -503,7 +516,52 @@ def run_periodic(case):
 
 
 def per_model_request(case):
-    return {k: case[k] for k in ("op", "clock", "fns", "ops", "handler_true", "handler_default") if k in case}
+    r = {k: case[k] for k in ("op", "clock", "fns", "ops", "handler_true", "handler_default") if k in case}
+    r["ops"] = [op[:5] if op[0] == "periodic" else op for op in r["ops"]]   # the per-job `via` is a harness-only annotation
+    return r
+
+
+def gen_catch_siblings(rng, kind=None):
+    """several periodic jobs on ONE CatchScheduler instance (schedule_periodic, interval(), timer(p, p)), one of them raising,
+    siblings already running and a job scheduled only after the failure: a failure must stop that job and no other"""
+    kind = kind or rng.choice(["test", "vts", "hist"])
+    unit = 500 if kind == "hist" else 1
+    c0 = unit * rng.choice([0, 0, 4])
+    n = rng.choice([2, 2, 3])
+    ops, fns, ht = [], [], []
+    bad = rng.randrange(1, n + 1)
+    swallow = rng.random() < 0.6
+    maxp = 1
+    fail_at = None
+    for pid in range(1, n + 1):
+        period = unit * rng.choice([1, 2, 3, 5])
+        maxp = max(maxp, period)
+        via = rng.choice(["schedule_periodic", "schedule_periodic", "interval", "timer"])
+        st0 = rng.choice([0, 3]) if via == "schedule_periodic" else 0
+        catch = True if pid == bad else rng.random() < 0.8
+        fn = {"pid": pid, "raise_at": [], "sleep_at": [], "dispose_at": []}
+        if pid == bad:
+            k = rng.randrange(0, 4)
+            fn["raise_at"] = [st0 + k]
+            fail_at = c0 + (k + 1) * period
+            if swallow:
+                ht.append(f"p{pid}s{st0 + k}")
+        fns.append(fn)
+        ops.append(["periodic", pid, period, st0, catch, via])
+    rng.shuffle(ops)
+    T1 = fail_at + unit * rng.choice([0, 1, 3])
+    ops.append(["advance_to", T1])
+    if not swallow:
+        ops.append(["stop"])          # the exception left the scheduler enabled
+        ops.append(["advance_to", T1 + unit])
+    late = n + 1                       # a job scheduled only after the failure
+    lp = unit * rng.choice([1, 2, 4])
+    lvia = rng.choice(["schedule_periodic", "interval", "timer"])
+    fns.append({"pid": late, "raise_at": [], "sleep_at": [], "dispose_at": []})
+    ops.append(["periodic", late, lp, 0, True, lvia])
+    ops.append(["advance_to", T1 + unit + max(maxp, lp) * rng.randrange(2, 6)])
+    return {"op": "per_script", "sched": kind, "clock": c0, "fns": fns, "ops": ops, "handler_true": ht,
+            "handler_default": False, "via": "schedule_periodic"}
 
 
 def gen_periodic(rng, kind=None, catch_p=0.0, raise_p=0.3, via="schedule_periodic"):
@@ -551,3 +609,55 @@ def gen_periodic(rng, kind=None, catch_p=0.0, raise_p=0.3, via="schedule_periodi
                 ht.append(f"p{fn['pid']}s{st}")
     return {"op": "per_script", "sched": kind, "clock": c0, "fns": fns, "ops": ops, "handler_true": ht,
             "handler_default": False, "via": via}
+
+
+def periodic_property_oracle(case, out):
+    """C35's statement on the event trace of a periodic script: state threading, ticks on the multiples of the period, stop on
+    dispose / raise — and NOT for any other reason: a job that was neither disposed nor failed has run every due tick."""
+    tasks = {}
+    slept = any(f["sleep_at"] for f in case.get("fns", []))
+    nper = sum(1 for op in case["ops"] if op[0] == "periodic")
+    if slept and nper == 1:
+        # a single task whose in-call sleeps never exceed its period still ticks exactly on the multiples (drift correction)
+        per = next(op[2] for op in case["ops"] if op[0] == "periodic")
+        if all(d <= per for f in case["fns"] for _, d in f["sleep_at"]):
+            slept = False
+    opends = []
+    for ev in out["events"]:
+        k = ev[0]
+        if k == "periodic":
+            _, pid, clock, period, st = ev
+            tasks[pid] = {"t0": clock, "p": period, "st": st, "n": 0, "last": None, "stopped": False}
+        elif k == "tick":
+            _, pid, clock, st = ev
+            t = tasks[pid]
+            if t["stopped"]:
+                return f"periodic action {pid} invoked at {clock} after it was disposed / had raised"
+            if st != t["st"]:
+                return f"periodic action {pid}: invocation {t['n']} got state {st}, the previous call returned {t['st']}"
+            if not slept:
+                if clock != t["t0"] + (t["n"] + 1) * t["p"]:
+                    return f"periodic action {pid}: invocation {t['n']} at clock {clock}, expected {t['t0'] + (t['n'] + 1) * t['p']}"
+            elif t["last"] is not None and clock < t["last"] + t["p"]:
+                return f"periodic action {pid}: invocations at {t['last']} and {clock} are closer than the period {t['p']}"
+            t["st"] = st + 1
+            t["n"] += 1
+            t["last"] = clock
+        elif k in ("dispose", "raise"):
+            if ev[1] in tasks:
+                tasks[ev[1]]["stopped"] = True
+        elif k == "opend":
+            opends.append(ev)
+    # nothing due was left out.  Judged when the last call is an advance_to(T) that really ran (returned normally, moved the
+    # clock to T, scheduler idle afterwards): every job that was neither disposed nor failed has been invoked floor((T-t0)/p) times
+    ops = case["ops"]
+    if (not slept and ops and ops[-1][0] == "advance_to" and out["outs"][-1] == "ok" and not out["enabled"]
+            and out["clock"] == ops[-1][1] and (len(opends) < 2 or opends[-2][3] < ops[-1][1])):
+        T = out["clock"]
+        for pid, t in tasks.items():
+            if not t["stopped"]:
+                exp = max(0, (T - t["t0"]) // t["p"])
+                if t["n"] != exp:
+                    return (f"periodic action {pid} (period {t['p']}, scheduled at {t['t0']}, never disposed, never raised) was invoked "
+                            f"{t['n']} times until {T}, expected {exp}")
+    return None
